@@ -39,7 +39,7 @@ func compare(base, got []Output, w *wm.World, what string, x *fw.Rec) {
 		known := ""
 		ea, eb := strings.HasPrefix(a, "ERROR: "), strings.HasPrefix(b, "ERROR: ")
 		switch {
-		case (ea && strings.Contains(a, namedPortErr) || eb && strings.Contains(b, namedPortErr)) && w != nil && w.NormalizeNS().NamedPortOnIPPossible():
+		case (ea && wm.IsNamedPortOnIPErrText(a) || eb && wm.IsNamedPortOnIPErrText(b)) && w != nil && w.NormalizeNS().NamedPortOnIPPossible():
 			// the documented named-port-on-IP error is reached in one order and not in the other
 			known = kfNamedPort
 		case !ea && !eb && sameUpToSelectorSpelling(a, b):
@@ -469,6 +469,9 @@ func Run(r *fw.Run) {
 	} else {
 		r.SetBudget(40 * time.Minute)
 	}
+	// read the wording of the documented error off the tree once, before any schedule is installed (the probe is an
+	// analysis of its own and must not consume scheduler choices)
+	wm.NamedPortOnIPErrSignature()
 	if !r.IsWorker() {
 		runUnordered(r)
 		runLayouts(r)
